@@ -314,8 +314,8 @@ MANIFEST_TEXT = {
                'Verus contracts on extracted real functions + Kani contract harnesses'),
     'C12': _mt('Unbounded Verus proofs for both filters: every failing insert/union leaves (cuckoo: restores) every array and the counter; Kani harnesses as counterexample engine.',
                'Trusted: IntVector/FixedBitSet stubs, hashing/RNG models; two canonical-layout-dependent panic sites of the quotient filter modelled as diverging.', 'Verus contracts on extracted real functions + Kani contract harnesses'),
-    'C13': _mt('Unbounded Verus proof: the canonical-layout invariant (ghost displacement per slot, run-counting lemma, layout uniqueness) is inductive over the real scan/insert_internal/insert/union/clear; query == abstract membership; Ok(true)/Ok(false)/Err exactly as stated; len counts used slots which hold distinct classes. Kani one-step harnesses against an independent encoder as counterexample engine.',
-               'Trusted: IntVector/FixedBitSet/VecDeque stubs, hashing model; history induction by re-established invariant.', 'Verus contracts on extracted real functions + Kani contract harnesses (counterexample engine)'),
+    'C13': _mt('Unbounded Verus proof: the canonical-layout invariant (ghost displacement per slot, run-counting lemma, layout uniqueness) is inductive over the real scan/insert_internal/insert/union/clear; query == abstract membership; Ok(true)/Ok(false)/Err exactly as stated; len == cardinality of the finite set of stored classes; union Ok => exact union, Err <=> it does not fit; client steps tie every operation to the abstract history semantics replay(). Kani one-step harnesses against an independent encoder as counterexample engine.',
+               'Trusted: IntVector/FixedBitSet/VecDeque stubs, hashing model; each step proved against the abstract history semantics replay(); iterating the step over a run of the real code is the remaining meta step.', 'Verus contracts on extracted real functions + Kani contract harnesses (counterexample engine)'),
     'C14': _mt('Unbounded Verus proof that CuckooFilter is an exact multiset over fingerprint classes (eviction-chain invariant through all kicks).',
                'Trusted: IntVector stub, hashing/RNG models, 64-bit usize.', 'Verus contracts on extracted real functions'),
     'C15': _mt('Bounded: bit-precise Kani harnesses on the real quantile/cdf from arbitrary well-formed small digests.',
